@@ -9,7 +9,7 @@ from ..core import Report
 from ..ctx import paths, sites, dominates
 from ..frontend import Repo
 from ..model import is_schedule_call
-from ..rules import cell_name, has_guard, locals_by_init, names_assigned_const, names_augmented
+from ..rules import cell_name, has_guard, locals_by_init, names_assigned_const, names_augmented, uc
 
 O = "reactivex/observable/"
 
@@ -137,9 +137,9 @@ def check(repo: Repo, rep: Report) -> None:
             and any(isinstance(x, ast.Call) and dotted(x.func) == "observer.on_completed" for x in ast.walk(h))]
     rep.ob("Y2-range", ra, "on_next(next(iterator)); reschedule with the same iterator; StopIteration -> completed", ok and bool(resched) and bool(stop),
            "range_ does not emit one item of its iterator per step and complete at the end")
-    rvars = {u(s.stmt.targets[0]) for s in rcalls if isinstance(s.stmt, ast.Assign)}
+    rvars = {cell_name(s.stmt.targets[0]) for s in rcalls if isinstance(s.stmt, ast.Assign) and cell_name(s.stmt.targets[0])}
     first = [s for s in sites(repo.fn(O + "range.py", "range_.subscribe")) if is_schedule_call(s.node) and len(rvars) == 1
-             and any(u(a_) == f"iter({next(iter(rvars))})" for a_ in list(s.node.args) + [k.value for k in s.node.keywords])]
+             and any(uc(a_) == f"iter({next(iter(rvars))})" for a_ in list(s.node.args) + [k.value for k in s.node.keywords])]
     rep.ob("Y2-range", ra, "first step scheduled with iter(range_t)", bool(first), "the iterator is not created from the range per subscription")
     # generate_*
     for rel, name, timed in ((O + "generate.py", "generate_", False), (O + "generatewithrelativetime.py", "generate_with_relative_time_", True)):
@@ -152,15 +152,15 @@ def check(repo: Repo, rep: Report) -> None:
         firsts = [f_ for f_ in locals_by_init(gsub, lambda v: isinstance(v, ast.Constant) and v.value is True) if f_ in names_assigned_const(act, False)]
         rep.require(len(sts) == 1, f"{name}: state variable")
         state, first_ = sts[0], (firsts[0] if len(firsts) == 1 else "?first-step-flag")
-        its = [s for s in sites(act) if isinstance(s.node, ast.Assign) and u(s.node.value) == f"iterate({state})" and u(s.node.targets[0]) == state]
+        its = [s for s in sites(act) if isinstance(s.node, ast.Assign) and uc(s.node.value) == f"iterate({state})" and cell_name(s.node.targets[0]) == state]
         ok = len(its) == 1 and has_guard(its[0].ctx, first_, False)
-        clr = [s for s in sites(act) if isinstance(s.node, ast.Assign) and u(s.node.targets[0]) == first_ and u(s.node.value) == "False"
+        clr = [s for s in sites(act) if isinstance(s.node, ast.Assign) and cell_name(s.node.targets[0]) == first_ and u(s.node.value) == "False"
                and has_guard(s.ctx, first_, True)]
         rep.ob("Y3-generate", act, f"{name}: iterate skipped exactly on the first step", ok and bool(clr),
                "generate does not skip iterate on (exactly) the first step: the initial state is lost or emitted twice")
-        cond = [s for s in sites(act) if isinstance(s.node, ast.Assign) and u(s.node.value) == f"condition({state})"]
+        cond = [s for s in sites(act) if isinstance(s.node, ast.Assign) and uc(s.node.value) == f"condition({state})"]
         flag = u(cond[0].node.targets[0]) if cond else None
-        res = [s for s in sites(act) if isinstance(s.node, ast.Assign) and isinstance(s.node.targets[0], ast.Name) and u(s.node.value) == state
+        res = [s for s in sites(act) if isinstance(s.node, ast.Assign) and cell_name(s.node.targets[0]) and uc(s.node.value) == state
                and has_guard(s.ctx, flag, True)]
         resv = u(res[0].node.targets[0]) if res else "result"
         rep.ob("Y3-generate", act, f"{name}: result = state under the accepted condition", bool(cond) and bool(res) and all(dominates(its[0], c) or True for c in cond),
@@ -172,7 +172,7 @@ def check(repo: Repo, rep: Report) -> None:
         ok = len(comp) == 1 and has_guard(comp[0].ctx, flag, False)
         rep.ob("Y3-generate", act, f"{name}: completes when the condition rejects", ok, "generate does not complete exactly when the condition rejects the state")
         if timed:
-            tm = [s for s in sites(act) if isinstance(s.node, ast.Assign) and u(s.node.value) == f"time_mapper({state})"]
+            tm = [s for s in sites(act) if isinstance(s.node, ast.Assign) and uc(s.node.value) == f"time_mapper({state})"]
             tv = u(tm[0].node.targets[0]) if tm else "time"
             bad = []
             for s in sites(act):
